@@ -151,6 +151,15 @@ def build_index(np, expr):
 			return list(v)
 		if a == 'tuple':
 			return tuple(v)
+		if a in ('pyarray', 'memoryview', 'array_protocol'):
+			# integer sequences that NumPy wraps WITHOUT copying: array.array, a memoryview of one, an object exposing __array__
+			import array as _array
+			arr = _array.array('q', v)
+			if a == 'pyarray':
+				return arr
+			if a == 'memoryview':
+				return memoryview(arr)
+			return _ArrayProtocol(np.array(v, dtype=np.int64))
 		if a.startswith('uint') and any(x < 0 for x in v):
 			a = 'int64'
 		return np.array(v, dtype=a)
@@ -166,6 +175,34 @@ def build_index(np, expr):
 	if t == 'bad':
 		return BAD[expr['v']](np)
 	raise ValueError(t)
+
+
+class _ArrayProtocol:
+	"""An index container that hands NumPy its own array through the __array__ protocol."""
+
+	def __init__(self, a):
+		self.a = a
+
+	def __array__(self, dtype=None, copy=None):
+		return self.a
+
+	def __len__(self):
+		return len(self.a)
+
+	def tolist(self):
+		return self.a.tolist()
+
+
+def _index_values(np, idx):
+	"""The integers an index container currently holds (None for containers that cannot be changed or are not sequences)."""
+	import array as _array
+	if isinstance(idx, np.ndarray):
+		return idx.tolist(), str(idx.dtype)
+	if isinstance(idx, (_array.array, memoryview, _ArrayProtocol)):
+		return list(idx.tolist()), type(idx).__name__
+	if isinstance(idx, list):
+		return list(idx), 'list'
+	return None
 
 
 BAD = {
@@ -200,14 +237,14 @@ BAD = {
 def check_expr(np, ASA, cont, model, spec, dtype, expr, case, cname):
 	kind, exp = model_eval(model, expr)
 	idx = build_index(np, expr)
-	before = idx.copy() if isinstance(idx, np.ndarray) else None
+	before = _index_values(np, idx)
 	try:
 		res = cont[idx]
 		err = None
 	except Exception as e:
 		res, err = None, e
-	if before is not None and not (np.array_equal(before, idx) and before.dtype == idx.dtype):
-		raise Violation('index_array_modified', f'{cname}: caller index array changed from {before.tolist()} to {idx.tolist()}', case)
+	if before is not None and _index_values(np, idx) != before:
+		raise Violation('index_array_modified', f'{cname}[{_show(expr)}]: the caller\'s index container ({before[1]}) changed from {before[0]} to {_index_values(np, idx)[0]}', case)
 	if kind == 'err':
 		if err is None:
 			raise Violation('no_error:' + expr['t'] + (':' + str(expr['v']) if expr['t'] == 'bad' else ''),
@@ -321,6 +358,10 @@ def enum_exprs(case):
 			if len(v) <= 2:
 				yield {'t': 'list', 'v': v, 'as': 'tuple'}
 				yield {'t': 'list', 'v': v, 'as': 'int32'}
+				if v:
+					yield {'t': 'list', 'v': v, 'as': 'pyarray'}
+					yield {'t': 'list', 'v': v, 'as': 'memoryview'}
+					yield {'t': 'list', 'v': v, 'as': 'array_protocol'}
 				if all(x >= 0 for x in v):
 					yield {'t': 'list', 'v': v, 'as': 'uint8'}
 
@@ -634,7 +675,7 @@ def expr_strategy(nmax_hint=12):
 		st.builds(lambda v, a: {'t': 'list', 'v': v, 'as': a}, st.lists(rh, min_size=1, max_size=5).filter(lambda l: all(x >= 0 for x in l)), st.sampled_from(['uint64', 'list'])),
 		st.builds(lambda a, b, c, k: {'t': 'slice', 'a': a, 'b': b, 'c': c, 'as': k}, opt, opt,
 		          st.one_of(st.none(), st.integers(-5, 5), r), st.sampled_from(['py', 'py', 'np'])),
-		st.builds(lambda v, a: {'t': 'list', 'v': v, 'as': a}, st.lists(r, max_size=8), st.sampled_from(['list', 'tuple', 'int64', 'int32', 'int16', 'uint64', 'uint8'])),
+		st.builds(lambda v, a: {'t': 'list', 'v': v, 'as': a}, st.lists(r, max_size=8), st.sampled_from(['list', 'tuple', 'int64', 'int32', 'int16', 'uint64', 'uint8', 'pyarray', 'memoryview', 'array_protocol'])),
 		st.builds(lambda v, a, fit: {'t': 'mask', 'v': v, 'as': a, 'fit': fit}, st.lists(st.booleans(), max_size=12),
 		          st.sampled_from(['list', 'bool']), st.sampled_from([True, True, False])),
 		st.builds(lambda v: {'t': 'bad', 'v': v}, st.sampled_from(sorted(BAD))),
